@@ -25,7 +25,8 @@ RULE = ("exhaustive: every non-empty set of distinct strict orders over m <= 3 a
         "noise with an embedded 3-4 alternative core refuted by the reference (sp_restrict). "
         "On EVERY case the verdict is also compared with the mirror of the algorithm (op c03.elo, Model/ELO.v); volume block "
         "against the mirror: thousands of planted profiles m = 7..10, n = 2..3 (Walsh / Conitzer / correlated bottom-up) "
-        "and profiles whose elimination alternates single- and two-candidate rounds. "
+        "and profiles whose elimination alternates single- and two-candidate rounds; profiles with MANY distinct orders "
+        "(subsets of every size above m(m-1)/2+1 of the 2^(m-1) single-peaked orders of an axis, m = 4..7, +/- one bad order). "
         "non-trivial = >= 3 alternatives and >= 2 distinct orders")
 EXHAUSTIVE = {"quick": "all sets of distinct strict orders m<=3; all sets of <=3 orders m=4; both storage orders; all 2-voter "
                        "profiles m=4 under non-contiguous ids; all 2-voter profiles m=5 + common bottom",
@@ -41,7 +42,7 @@ ASSUMPTIONS = ["data_type = soc, every order ranks every alternative exactly onc
 COVER_FILES = ['properties/subdomains/ordinal/singlepeaked/singlepeakedness.py']
 TIMEOUT_S = 30.0
 CHUNK = 40
-THEOREMS_FOR_OP = {"c03.sp": "sp_decide_correct / sp_check_axis_correct / sp_restrict / elo_sound / elo_complete"}
+THEOREMS_FOR_OP = {"c03.hist": "elo_correct / sp_check_axis_correct on the orders the instance holds", "c03.sp": "sp_decide_correct / sp_check_axis_correct / sp_restrict / elo_sound / elo_complete"}
 
 
 # ------------------------------------------------------------------------------------------------ generators
@@ -190,6 +191,183 @@ def relabel(idmap, rankings):
     return [[idmap[a] for a in r] for r in rankings]
 
 
+# ------------------------------------------------------------------------------------------------ history cases
+MAINT = ["recompute_cardinality_param", "flatten_strict", "full_profile", "vote_map", "infer_type"]
+
+
+def history_expected(phases):
+    """distinct orders in order of first appearance (= instance.orders) and their multiplicities"""
+    orders, mult = [], {}
+    for ph in phases:
+        for o, mu in ph:
+            k = tuple(tuple(cl) for cl in o)
+            if k not in mult:
+                orders.append(k)
+                mult[k] = 0
+            mult[k] += mu
+    return [[list(cl) for cl in k] for k in orders], [mult[k] for k in orders]
+
+
+def _poison(x):
+    """in-place damage of a returned container (results must be fresh objects, never internal state)"""
+    try:
+        if isinstance(x, list):
+            x.reverse()
+            x.append(-7)
+            if len(x) > 2:
+                del x[0]
+        elif isinstance(x, dict):
+            for k in list(x)[:1]:
+                x[k] = -7
+            x[((-7,),)] = 3
+        elif isinstance(x, set):
+            x.add(-7)
+    except Exception:
+        pass
+
+
+def history_build(phases, maint, how):
+    """one OrdinalInstance built through the public append API in several phases, with maintenance / accessor calls
+    (their results poisoned) in between.  phases[k] = [[order (list of classes), multiplicity], ...]"""
+    from preflibtools.instances import OrdinalInstance
+    inst = OrdinalInstance()
+    for k, ph in enumerate(phases):
+        h = how[k % len(how)] if how else 1
+        if h == 2:
+            vm = {}
+            for o, mu in ph:
+                t = tuple(tuple(cl) for cl in o)
+                vm[t] = vm.get(t, 0) + mu
+            inst.append_vote_map(vm)
+        elif h == 0 and all(len(cl) == 1 for o, _ in ph for cl in o):
+            for o, mu in ph:
+                for _ in range(mu):
+                    inst.append_order([cl[0] for cl in o])
+        else:
+            inst.append_order_list([[list(cl) for cl in o] for o, mu in ph for _ in range(mu)])
+        for code in (maint[k] if k < len(maint) else []):
+            res = getattr(inst, MAINT[code])()
+            _poison(res)
+    return inst
+
+
+def _hist_profile(rng, m, kind, ids=None):
+    """(alts, phases, maint, how): kind 'sp' planted, 'noise' planted + a random vote, '2d' two opposite monotone voters
+    (+ planted ones): the run ends in case 2.(d) of the elimination"""
+    alts = ids if ids is not None else rng.sample(range(0, rng.choice([m, 30, 1000])), m)
+    axis = rand_perm(rng, alts)
+    votes = [(conitzer if rng.random() < 0.5 else walsh)(rng, axis) for _ in range(rng.randint(2, 5))]
+    if kind == "2d":
+        votes = [list(axis), list(axis[::-1])] + votes[:rng.randint(0, 2)]
+        rng.shuffle(votes)
+    elif kind == "noise":
+        votes.append(rand_perm(rng, alts))
+    nph = rng.randint(2, 3)
+    phases = [[] for _ in range(nph)]
+    for v in votes:
+        phases[rng.randrange(nph)].append([strict(v), rng.choice([1, 1, 2, 300])])
+    for k in range(nph):                     # every phase non-empty; some orders come back in a later phase
+        if not phases[k]:
+            phases[k].append([strict(rng.choice(votes)), 1])
+    if rng.random() < 0.5:
+        phases[-1].append([strict(votes[0]), rng.choice([1, 2])])
+    maint = [[rng.randrange(len(MAINT)) for _ in range(rng.randint(0, 3))] for _ in range(nph)]
+    if rng.random() < 0.6:
+        maint[rng.randrange(nph - 1)].insert(0, 0)        # recompute_cardinality_param between two phases
+    how = [rng.randrange(3) for _ in range(nph)]
+    return [list(alts), phases, maint, how]
+
+
+def generate_history(rng, n):
+    out = []
+    for i in range(n):
+        k = i % 4
+        if k == 0:          # one object, one profile
+            profs = [_hist_profile(rng, rng.randint(4, 7), rng.choice(["sp", "sp", "noise"]))]
+        elif k == 1:        # two different 2.(d) profiles with overlapping ids (m >= 5), then the first one again
+            ids = rng.sample(range(0, 12), 8)
+            m1, m2 = rng.randint(5, 7), rng.randint(5, 7)
+            profs = [_hist_profile(rng, m1, "2d", ids=rng.sample(ids, m1)), _hist_profile(rng, m2, "2d", ids=rng.sample(ids, m2))]
+        elif k == 2:        # a rejected profile first, then a single-peaked one on the same ids
+            ids = rng.sample(range(0, 40), 6)
+            profs = [_hist_profile(rng, 6, "noise", ids=list(ids)), _hist_profile(rng, 6, rng.choice(["sp", "2d"]), ids=list(ids))]
+        else:               # three profiles, mixed
+            profs = [_hist_profile(rng, rng.randint(4, 6), rng.choice(["sp", "2d", "noise"])) for _ in range(3)]
+        out.append(case("c03.hist", [profs], hist=k))
+    return out
+
+
+def _hist_impl(c):
+    from preflibtools.properties.subdomains.ordinal.singlepeaked import singlepeakedness as SPM
+    from .common import snapshot, snap_diff
+    profs = c["payload"][0]
+    insts, res = [], []
+
+    def ask(inst):
+        before = snapshot(inst)
+        r = guarded(SPM.is_single_peaked, inst)
+        d = snap_diff(before, snapshot(inst))
+        if r[0] != 0:
+            return [r, d]
+        v, ax = r[1]
+        out = [[0, int(bool(v)), [int(a) for a in ax] if v else []], d]
+        if isinstance(ax, list):
+            _poison(ax)                      # the returned axis must not alias anything that matters later
+        return out
+    for alts, phases, maint, how in profs:
+        inst = history_build(phases, maint, how)
+        insts.append(inst)
+        a1 = ask(inst)
+        a2 = ask(inst)                       # the same question twice on one object
+        res.append({"dt": str(inst.data_type), "nv": int(inst.num_voters), "nu": int(inst.num_unique_orders),
+                    "m": int(inst.num_alternatives), "asks": [a1, a2]})
+    for k, inst in enumerate(insts[:-1]):    # and once more after the other profiles have been processed
+        res[k]["asks"].append(ask(inst))
+    return res
+
+
+def _hist_plan(c, r):
+    plan = []
+    for k, (alts, phases, maint, how) in enumerate(c["payload"][0]):
+        orders, mults = history_expected(phases)
+        rankings = [[cl[0] for cl in o] for o in orders]
+        plan.append((("elo", k), "c03.elo", [alts, rankings]))
+        if isinstance(r, list) and k < len(r):
+            for j, a in enumerate(r[k]["asks"]):
+                if a[0][0] == 0 and a[0][1] == 1:
+                    plan.append((("axis", k, j), "c03.check_axis", [alts, rankings, a[0][2]]))
+    return plan
+
+
+def _hist_judge(c, r, mres):
+    nm = {name: ans for (name, _, _), ans in zip(_hist_plan(c, r), mres)}
+    for k, (alts, phases, maint, how) in enumerate(c["payload"][0]):
+        orders, mults = history_expected(phases)
+        me = nm[("elo", k)]
+        if me[0] != 0:
+            return {"kind": "broken-correspondence", "reason": "mirror error %r on profile %d" % (me, k)}
+        got = r[k]
+        if got["dt"] != "soc" or got["nv"] != sum(mults) or got["nu"] != len(orders) or got["m"] != len(alts):
+            return {"kind": "mismatch", "theorem": "C03 quantifier (soc instance built through the public API)",
+                    "reason": "profile %d: data_type %r, num_voters %r (expected %d), num_unique_orders %r (expected %d)"
+                              % (k, got["dt"], got["nv"], sum(mults), got["nu"], len(orders))}
+        for j, (ans, diff) in enumerate(got["asks"]):
+            if diff:
+                return {"kind": "mismatch", "theorem": "purity of is_single_peaked",
+                        "reason": "profile %d, call %d: is_single_peaked modified the instance: %s" % (k, j + 1, diff)}
+            if ans[0] != 0:
+                return {"kind": "exception", "theorem": "elo_no_error",
+                        "reason": "profile %d, call %d: is_single_peaked raised %r" % (k, j + 1, ans)}
+            if ans[1] != me[1][0]:
+                return {"kind": "mismatch", "theorem": "elo_correct",
+                        "reason": "profile %d, call %d of is_single_peaked on the same object -> %r, mirror on the instance's "
+                                  "orders -> %r" % (k, j + 1, bool(ans[1]), bool(me[1][0]))}
+            if ans[1] == 1 and nm.get(("axis", k, j)) != 1:
+                return {"kind": "mismatch", "theorem": "sp_check_axis_correct",
+                        "reason": "profile %d, call %d: returned axis %r is not a valid single-peaked axis" % (k, j + 1, ans[2])}
+    return None
+
+
 def generate(tier, seed):
     rng = random.Random(1000003 * seed + 3)
     thorough = tier != "quick"
@@ -314,6 +492,54 @@ def generate(tier, seed):
         if i % 3 == 0 and len(votes) > 1:
             add(rand_perm(rng, alts), votes[::-1], mults[::-1], style=style, rev=1)
 
+    # ---- MANY distinct orders: a single-peaked profile over m alternatives can hold up to 2^(m-1) distinct orders (more
+    #      than the single-crossing bound m(m-1)/2 + 1 from m = 4 on): the full set of single-peaked orders of a hidden
+    #      axis and random subsets of every size above the bound, arbitrary ids, shuffled storage order, multiplicities;
+    #      the same with one non-single-peaked order added; Walsh / Conitzer samples with many voters
+    def all_sp_orders(axis):
+        m_ = len(axis)
+        res = []
+        for bits in itertools.product([0, 1], repeat=m_ - 1):
+            l, r, rev = 0, m_ - 1, []
+            for b in bits:
+                if b:
+                    rev.append(axis[l]); l += 1
+                else:
+                    rev.append(axis[r]); r -= 1
+            rev.append(axis[l])
+            res.append(rev[::-1])
+        return res
+    for m in (4, 5, 6, 7):
+        bound = m * (m - 1) // 2 + 1
+        reps = {4: 12, 5: 8, 6: 4, 7: 1}[m] * (1 if not thorough else 4)
+        sizes = list(range(bound + 1, 2 ** (m - 1) + 1))
+        if m == 7:
+            sizes = sorted(rng.sample(sizes, 14 if not thorough else 40)) + [2 ** (m - 1)]
+        for size in sizes:
+            for rep in range(reps):
+                ids = rng.sample(range(0, rng.choice([m, 40, 10 ** 6])), m)
+                axis = rand_perm(rng, ids)
+                allo = all_sp_orders(axis)
+                sub = rng.sample(allo, size)
+                mults = [rng.choice([1, 1, 2, 7]) for _ in sub]
+                add(rand_perm(rng, ids), sub, mults, mode=(1 if m <= 6 else 0), manyorders=1)
+                # negative: replace one order by a ranking that is not single-peaked on the axis
+                bad = rand_perm(rng, ids)
+                if bad not in allo:
+                    neg = sub[:-1] + [bad]
+                    rng.shuffle(neg)
+                    add(rand_perm(rng, ids), neg, [1] * len(neg), mode=(1 if m <= 6 else 0), manyorders=1)
+    for i in range(400 if not thorough else 3000):
+        m = rng.randint(4, 6)
+        ids = rng.sample(range(0, rng.choice([m, 40, 10 ** 6])), m)
+        axis = rand_perm(rng, ids)
+        gen = conitzer if i % 2 == 0 else walsh
+        votes = distinct([gen(rng, axis) for _ in range(rng.randint(12, 60))])
+        if i % 5 == 4:
+            votes.append(rand_perm(rng, ids))
+            votes = distinct(votes)
+        add(rand_perm(rng, ids), votes, [rng.choice([1, 2, 3]) for _ in votes], manyvoters=1)
+
     # ---- VOLUME against the mirror (exact verdict oracle at every size, no enumeration): planted single-peaked
     #      profiles, m = 7..10, n = 2..3, arbitrary ids incl. 0; plus profiles whose elimination schedule alternates
     #      single-candidate and two-candidate rounds (stale state across rounds needs >= 7 alternatives), e.g.
@@ -384,11 +610,15 @@ def generate(tier, seed):
             if nbott:
                 alts, allv = add_common_bottoms(rng, alts, allv, nbott)
             add(alts, allv, [1] * len(allv), mode=0, cores=find_cores(rng, alts, allv), large="negative")
+    # ---- histories on one object / sequences of instances inside one call (purity, aliasing, object lifetime)
+    out.extend(generate_history(rng, 1200 if not thorough else 8000))
     return out
 
 
 # ------------------------------------------------------------------------------------------------ implementation side
 def impl(c):
+    if c["op"] == "c03.hist":
+        return _hist_impl(c)
     from preflibtools.properties.subdomains.ordinal.singlepeaked import singlepeakedness as SPM
     alts, rankings, mults, mode, cores = c["payload"]
     inst = ordinal_instance([(strict(r), mu) for r, mu in zip(rankings, mults)], data_type="soc", alts=list(alts))
@@ -419,6 +649,8 @@ def _restrict(S, alts, rankings):
 
 
 def oracle_requests(c, r):
+    if c["op"] == "c03.hist":
+        return [(o_, p_) for _, o_, p_ in _hist_plan(c, r)]
     alts, rankings, mults, mode, cores = c["payload"]
     reqs = []
     if mode == 1:
@@ -448,6 +680,8 @@ def expected(c, mres):
 
 
 def judge(c, r, mres):
+    if c["op"] == "c03.hist":
+        return _hist_judge(c, r, mres)
     alts, rankings, mults, mode, cores = c["payload"]
     exp, i, core_ref = expected(c, mres)
     if mode == 1 and any(core_ref) and exp == 1:
@@ -479,11 +713,22 @@ def judge(c, r, mres):
 
 
 def nontrivial(c, r, m):
+    if c["op"] == "c03.hist":
+        return True
     alts, rankings = c["payload"][0], c["payload"][1]
     return len(alts) >= 3 and len(rankings) >= 2
 
 
 def stats(c, r, m):
+    if c["op"] == "c03.hist":
+        profs = c["payload"][0]
+        lab = ["history: %d profile(s) in one call" % len(profs)]
+        for k, (alts, phases, maint, how) in enumerate(profs):
+            lab.append("history profile: %d phases" % len(phases))
+            if any(0 in mk for mk in maint[:-1]):
+                lab.append("history: recompute_cardinality_param between two phases")
+        lab.append("history: is_single_peaked calls judged: %d" % sum(len(x["asks"]) for x in r))
+        return lab
     alts, rankings, mults, mode, cores = c["payload"]
     exp, i, core_ref = expected(c, m)
     mm = len(alts)
@@ -510,6 +755,8 @@ def stats(c, r, m):
             if alternating(pat):
                 lab.append("m>=7: alternating single / two / single rounds (%s)" %
                            ("mirror SP" if m[-1][0] == 0 and m[-1][1][0] == 1 else "mirror notSP"))
+    if mm >= 4 and len(rankings) > mm * (mm - 1) // 2 + 1:
+        lab.append("more than m(m-1)/2+1 distinct orders (m=%d): %s" % (mm, "SP" if m[-1][0] == 0 and m[-1][1][0] == 1 else "notSP"))
     if c["tags"].get("vol"):
         lab.append("volume vs mirror %s n=%d" % (size, len(rankings)))
     me = m[-1]
@@ -537,12 +784,35 @@ def stats(c, r, m):
 
 
 def describe(c):
+    if c["op"] == "c03.hist":
+        return {"profiles": [{"alternatives": a, "phases ([order, multiplicity] per phase)": ph,
+                              "calls after each phase": [[MAINT[x] for x in mk] for mk in mt],
+                              "append method per phase (0 append_order, 1 append_order_list, 2 append_vote_map)": hw}
+                             for a, ph, mt, hw in c["payload"][0]],
+                "then": "is_single_peaked twice on each object (axis poisoned in between), then once more on the earlier objects"}
     alts, rankings, mults, mode, cores = c["payload"]
     return {"alternatives": alts, "orders (best first)": rankings, "multiplicities": mults,
             "reference_run": bool(mode), "candidate_cores": cores}
 
 
 def shrink(c):
+    if c["op"] == "c03.hist":
+        profs = c["payload"][0]
+        if len(profs) > 1:
+            for i in range(len(profs)):
+                yield dict(c, payload=[profs[:i] + profs[i + 1:]])
+        for i, (a, ph, mt, hw) in enumerate(profs):
+            if any(mt):
+                for k in range(len(mt)):
+                    if mt[k]:
+                        yield dict(c, payload=[profs[:i] + [[a, ph, mt[:k] + [mt[k][1:]] + mt[k + 1:], hw]] + profs[i + 1:]])
+            if len(ph) > 1:
+                yield dict(c, payload=[profs[:i] + [[a, [ph[0] + ph[1]] + ph[2:], [mt[0] + mt[1]] + mt[2:], hw]] + profs[i + 1:]])
+            for k in range(len(ph)):
+                if len(ph[k]) > 1:
+                    for t in range(len(ph[k])):
+                        yield dict(c, payload=[profs[:i] + [[a, ph[:k] + [ph[k][:t] + ph[k][t + 1:]] + ph[k + 1:], mt, hw]] + profs[i + 1:]])
+        return
     alts, rankings, mults, mode, cores = c["payload"]
     if len(rankings) > 1:
         for i in range(len(rankings)):
